@@ -104,4 +104,18 @@ theorem gather_fold (env : List (Tensor Int)) (l : List (Nat × Int)) : ∀ (g :
     rw [ih]
     simp [TG.eval, gatherOp, constT, ravel]
 
+
+theorem equiv_trans {a b c : Tensor α} (h1 : a.Equiv b) (h2 : b.Equiv c) : a.Equiv c :=
+  ⟨h1.1.trans h2.1, fun ix hix => (h1.2 ix hix).trans (h2.2 ix (h1.1 ▸ hix))⟩
+
+theorem equiv_symm {a b : Tensor α} (h : a.Equiv b) : b.Equiv a :=
+  ⟨h.1.symm, fun ix hix => (h.2 ix (h.1 ▸ hix)).symm⟩
+
+theorem equiv_refl (a : Tensor α) : a.Equiv a := ⟨rfl, fun _ _ => rfl⟩
+
+theorem mapIdx_snd {β : Type} (l : List β) : l.mapIdx (fun _ b => b) = l := by
+  apply List.ext_getElem
+  · simp
+  · intro k h1 h2; simp
+
 end Ndx.TGraph
